@@ -30,10 +30,14 @@ META = {
 
 INV = ["CompletesOnce", "AlwaysCompletes", "ErrorIffSomePoolFailed", "KeyspaceEverywhereAfterSuccess", "NoneOnlyWhenShutdown"]
 WITNESSES = ["Witness_SuccessWithPoolWithoutConnection", "Witness_ErrorThenOkLast", "Witness_DiedOnly",
-             "Witness_AllBorrowedAfterSuccess"]
-ACTIONS = ["Start", "PoolFinish", "Reconnect", "Borrow"]
+             "Witness_AllBorrowedAfterSuccess", "Witness_SwitchBetweenUseAndPublish", "Witness_SwitchWhileConnecting"]
+ACTIONS = ["Start", "PoolFinish", "Reconnect", "Borrow", "RCheck", "ROpen", "RUse", "RPublish"]
 
 WHAT = {
+    "HostConnection._replace:keyspace-switch-between-USE-and-publication-of-the-replacement-lost":
+        "HostConnection._replace selects pool._keyspace on the new connection and publishes it later without looking again "
+        "(pool.py 512-517): a keyspace switch recorded in between finds no connection (reports success) and the pool then "
+        "installs a connection on the old keyspace",
     "Session._set_keyspace_for_all_pools:never-completes-when-a-pool-has-no-connection-or-is-shut-down":
         "HostConnection._set_keyspace_for_all_conns returns without calling back when the pool is shut down or has no "
         "connection (pool.py 552-553), so Session._set_keyspace_for_all_pools never completes the USE future",
@@ -55,13 +59,26 @@ def _fmt(d):
 
 def _cfg_of(state):
     from harness.replay import keyspace as rk
-    return {"pstate": rk._fn(state["pstate"]), "outcome": rk._fn(state["outcome"])}
+    return {"pstate": rk._fn(state["pstate"]), "outcome": rk._fn(state["outcome"]), "rph": rk._fn(state["rph"])}
+
+
+def _has_replacement(nodes, w):
+    return any(v != "none" for v in nodes[w[0]]["rph"])
 
 
 def run(ctx):
     from harness.replay import keyspace as rk
     rep = Reporter(ctx, "C20")
-    sizes = [2, 3] if ctx.quick else [1, 2, 3, 4]
+    sizes = [2, 3] if ctx.quick else [1, 2, 3]
+    budget = {3: 500} if ctx.quick else {}          # cover walks replayed for the larger instance in quick (all otherwise)
+    if not ctx.quick:
+        cfg4 = tlc.write_cfg(os.path.join(ctx.scratch, "ks4.cfg"), constants={"NPools": 4}, invariants=INV, deadlock=False)
+        res4 = tlc.check_model("SessionKeyspace", cfg4, ctx.scratch, timeout=1500)
+        ctx.add_tlc(res4, "exhaustive NPools=4 (not replayed)")
+        if res4.violation:
+            rep.report("C20", "spec:%s" % res4.invariant, "TLC: %s violated on SessionKeyspace.tla (NPools=4)" % res4.invariant,
+                       {"kind": "spec", "trace": [dict(s.get("act", {})) for _, s in res4.trace()]})
+            return rep.finish()
     replayed = clean = 0
     selftested = False
     for n in sizes:
@@ -78,6 +95,11 @@ def run(ctx):
             raise tlc.MachineryError("actions never taken (NPools=%d): %s" % (n, zero))
         # ---- spec -> code: every edge of the graph (every configuration, every order)
         walks = cover_walks(edges, init, max_len=40)
+        needed = len(walks)
+        if n in budget and needed > budget[n]:
+            ctx.rng.shuffle(walks)
+            first = [w for w in walks if _has_replacement(nodes, w)]      # half of the sample: a replacement in progress
+            walks = (first[:budget[n] // 2] + [w for w in walks if not _has_replacement(nodes, w)])[:budget[n]]
         covered = set()
         for w in walks:
             states = [nodes[i] for i in w]
@@ -87,7 +109,7 @@ def run(ctx):
             acts = [dict(s["act"]) for s in states[1:]]
             conf = _cfg_of(states[0])
             ctx.nontrivial((n, tuple(sorted(conf["pstate"].items())), tuple(sorted(conf["outcome"].items())),
-                            tuple(a["p"] for a in acts if a["name"] == "PoolFinish")))
+                            tuple(sorted(conf["rph"].items())), tuple((a["name"][:2], a["p"]) for a in acts if a["name"] != "Borrow")))
             if replayed % 150 == 1:
                 ctx.sample({"direction": "spec->code", "configuration": conf, "actions": acts})
             if not divs:
@@ -112,7 +134,8 @@ def run(ctx):
                                                             "diff": _fmt(d["diff"])}})
         ctx.note("graph_edges_NPools=%d" % n, len(set((s, d) for s, d, _ in edges)))
         ctx.note("graph_edges_replayed_NPools=%d" % n, len(covered))
-    ctx.note("exhaustive", True)
+        ctx.note("cover_walks_NPools=%d" % n, {"needed_for_every_edge": needed, "replayed": len(walks)})
+    ctx.note("exhaustive_up_to_NPools", max(k for k in sizes if k not in budget))
     ctx.traces_validated += clean
     ctx.note("behaviours_replayed", replayed)
     ctx.note("behaviours_replayed_without_divergence", clean)
@@ -127,9 +150,9 @@ def run(ctx):
     ctx.note("vacuity_witnesses_reached", len(WITNESSES))
 
     # ---- code -> spec: recorded random runs validated against Trace_SessionKeyspace.tla
-    n_tr = 200 if ctx.quick else 1500
+    n_tr = 150 if ctx.quick else 1000
     accepted = recorded = 0
-    for n in ([3] if ctx.quick else [2, 3, 4]):
+    for n in ([3] if ctx.quick else [2, 3]):
         traces = [rk.record(n, ctx.rng) for _ in range(n_tr)]
         good = len(traces)
         victims = [i for i, t in enumerate(traces) if len(t) >= 5][:8]
@@ -167,7 +190,7 @@ def run(ctx):
             sig = rk.classify_event(t, k)
             rep.report("C20", sig, "%srecorded execution rejected by the specification at event %d: %s (configuration %s)"
                        % (WHAT[sig] + ". " if sig in WHAT else "", prog[i], {a: b for a, b in t[k].items() if a != "post"},
-                          {a: t[0][a] for a in ("pstate", "outcome")}),
+                          {a: t[0][a] for a in ("pstate", "outcome", "rph")}),
                        {"kind": "trace", "events": t[:prog[i]]})
         if n == 3:
             ctx.sample({"direction": "code->spec", "events": [{k: v for k, v in e.items() if k != "post"} for e in traces[0]]})
@@ -192,8 +215,9 @@ def replay(ctx, obj):
         conf = obj["configuration"]
         pstate = {int(p): v for p, v in conf["pstate"].items()}
         outcome = {int(p): v for p, v in conf["outcome"].items()}
-        print("configuration:", pstate, outcome)
-        h = rk.KsHarness(pstate, outcome)
+        rph = {int(p): v for p, v in conf.get("rph", {}).items()}
+        print("configuration:", pstate, outcome, rph)
+        h = rk.KsHarness(pstate, outcome, rph)
         print("  ", h.project())
         for a in obj["actions"]:
             print("->", a["name"], a["p"])
